@@ -57,25 +57,37 @@ def step (a : Acc) (line : String) : Acc :=
   | [""] => a
   | _ => bad
 
-partial def readAll (h : IO.FS.Stream) (a : Acc) : IO Acc := do
+/-- reads lines up to `run`; `vo x1 x2 …` sets the previous iterate for the next run.  Returns `none` at end of input. -/
+partial def readUntilRun (h : IO.FS.Stream) (a : Acc) (vo : Array Float) : IO (Option (Acc × Array Float)) := do
   let line ← h.getLine
-  if line.isEmpty then return a
-  if line.trimAscii.toString = "run" then return a
-  readAll h (step a line)
+  if line.isEmpty then return none
+  let t := line.trimAscii.toString
+  if t = "run" then return some (a, vo)
+  match t.splitOn " " with
+  | "vo" :: xs =>
+    match xs.mapM parseFloatTok with
+    | some v => readUntilRun h a v.toArray
+    | none => readUntilRun h { a with bad := true } vo
+  | _ => readUntilRun h (step a line) vo
 
-def run (h out : IO.FS.Stream) : IO Unit := do
-  let a ← readAll h {}
-  match a.bad, a.k with
-  | false, some (pi, ksb) =>
-    let r := assembleH { pi := pi, ksb := ksb, sqrt := Float.sqrt, pow := fun x n => Float.pow x (Float.ofNat n) } a.P #[]
-    let L := r.L
-    out.putStrLn s!"SYS real {L.n} {L.bdw}"
-    for p in [0:L.n] do
-      for (c, x) in L.rows.getD p [] do
-        out.putStrLn s!"E {p} {c} {floatTok x}"
-    for i in [0:L.n] do
-      out.putStrLn s!"B {i} {floatTok (getB L i)}"
-    out.putStrLn "END"
-  | _, _ => out.putStrLn "bad-op"
+partial def session (h out : IO.FS.Stream) (a : Acc) (vo : Array Float) : IO Unit := do
+  match ← readUntilRun h a vo with
+  | none => return ()
+  | some (a, vo) =>
+    match a.bad, a.k with
+    | false, some (pi, ksb) =>
+      let r := assembleH { pi := pi, ksb := ksb, sqrt := Float.sqrt, pow := fun x n => Float.pow x (Float.ofNat n) } a.P vo
+      let L := r.L
+      out.putStrLn s!"SYS real {L.n} {L.bdw}"
+      for p in [0:L.n] do
+        for (c, x) in L.rows.getD p [] do
+          out.putStrLn s!"E {p} {c} {floatTok x}"
+      for i in [0:L.n] do
+        out.putStrLn s!"B {i} {floatTok (getB L i)}"
+      out.putStrLn "END"
+    | _, _ => out.putStrLn "bad-op"
+    session h out a vo
+
+def run (h out : IO.FS.Stream) : IO Unit := session h out {} #[]
 
 end Driver.AssembleH
